@@ -4,7 +4,7 @@
    elements) is the external-library hypothesis validated by suites W-fide / R-fide. *)
 From Coq Require Import List Bool String ZArith.
 From FM Require Import Base.Result Base.AstOp Model.Ast Model.FM Model.PFM Model.Sem Format.Xml Model.PyRt Model.Loc
-     Gen.Tables_fide Gen.Src_fide Proofs.FideFacts Proofs.SrcFideFacts.
+     Gen.Tables_fide Gen.Src_fide Gen.Src_fider Proofs.FideFacts Proofs.SrcFideFacts Proofs.SrcFideReaderFacts.
 Import ListNotations.
 Local Open Scope list_scope.
 
@@ -82,3 +82,17 @@ Theorem C07_source_constraints_listing : forall cs fuel, (fuel_ctcs cs <= fuel)%
   = rmap (fun _ => tt) (mapM (fun c => match pretty_str (c_ast c) with Err e => Err e | Ok _ => fide_ctc_info (c_ast c) end) cs).
 Proof. exact src_fide_constraints_info_write. Qed.
 Print Assumptions C07_source_constraints_listing.
+
+(* ---- the constraint half of the READER about the translated source (FeatureIDEReader._parse_rule and _read_constraints,
+   Gen/Src_fider.v, regenerated on every run; DESIGN §10): `node.left = …` on the Node the function has just created is a
+   rebinding, an Element is the tree value of Format/Xml.v.  The translated functions ARE the model's, errors included
+   (a missing operand: IndexError; an unknown tag: the unbound `node`; an empty <var>: the library's exception). ---- *)
+Theorem C07_source_reader_rule : forall w rule fuel, (xml_depth rule <= fuel)%nat ->
+  py_FeatureIDEReader__parse_rule fuel w rule = fide_parse_rule rule.
+Proof. exact src_fide_parse_rule. Qed.
+Print Assumptions C07_source_reader_rule.
+
+Theorem C07_source_reader_constraints : forall w ctcs_root, exists n0, forall fuel, (n0 <= fuel)%nat ->
+  py_FeatureIDEReader__read_constraints fuel w ctcs_root = fide_read_constraints ctcs_root.
+Proof. exact src_fide_read_constraints. Qed.
+Print Assumptions C07_source_reader_constraints.
